@@ -492,6 +492,9 @@ func init() {
 	models["strings.ToLower"] = func(fr *Frame, st *State, args []Value, sig *types.Signature) []Outcome {
 		return ret(st, Scalar{strLower(args[0].(Scalar).T)})
 	}
+	models["strings.ToUpper"] = func(fr *Frame, st *State, args []Value, sig *types.Signature) []Outcome {
+		return ret(st, Scalar{strUpper(args[0].(Scalar).T)})
+	}
 	models["context.Background"] = func(fr *Frame, st *State, args []Value, sig *types.Signature) []Outcome {
 		h := Var("ctx.background", SInt)
 		tid := UF("tid", SInt, h)
@@ -789,6 +792,13 @@ func bePut(n int) modelFn {
 }
 
 var _ = strings.HasPrefix
+
+func strUpper(t *Term) *Term {
+	if t.IsStr() {
+		return Str(strings.ToUpper(t.S))
+	}
+	return UF("strings.ToUpper", SString, t)
+}
 
 func strLower(t *Term) *Term {
 	t2 := t
